@@ -48,3 +48,93 @@ package stdlib
 //@ func init$5 at "month := int(t.Month())"
 //@   ensures result == itoa((month_of(t) - 1) / 3 + 1)
 //@   ensures 1 <= unitoa(result) && unitoa(result) <= 4
+
+// ---- C08: no helper panics --------------------------------------------------------------
+// The sweep verifies every function and closure of this package with no contract of its own.
+// What a stage closure may rely on about its captured variables is *inferred*: each candidate
+// fact is proved at the closure's creation site before the closure assumes it. The contracts
+// below only state what callers inside this package must provide to the shared helpers.
+
+//@ nonnil rare/pkg/expressions/stdlib.typedStage[int]
+//@ nonnil rare/pkg/expressions/stdlib.typedStage[float64]
+
+// parsers of constant/dynamic typed arguments (strconv wrappers): no side effects
+//@ functype rare/pkg/expressions/stdlib.typedStageParser[int]
+//@   pure
+//@ functype rare/pkg/expressions/stdlib.typedStageParser[float64]
+//@   pure
+//@ functype rare/pkg/expressions/stdlib.typedStage[int]
+//@   pure
+//@ functype rare/pkg/expressions/stdlib.typedStage[float64]
+//@   pure
+
+//@ func arithmaticHelperi
+//@   requires equation != nil
+//@ func arithmaticHelperiChecked
+//@   requires equation != nil
+//@ func arithmaticHelperf
+//@   requires equation != nil
+//@ func unaryArithmaticHelperf
+//@   requires op != nil
+//@ func unaryArithmaticHelperfi
+//@   requires op != nil
+//@ func arithmaticEqualityHelper
+//@   requires test != nil
+//@ func stringComparator
+//@   requires equation != nil
+//@ func kfPathManip
+//@   requires manipulator != nil
+//@ func smartDateParseWrapper
+//@   requires f != nil
+
+//@ func evalTypedStage
+//@   requires parser != nil
+//@   noinline
+//@   pure
+//@   ensures result1 ==> result0 != nil
+//@ func mapTypedArgs
+//@   requires parser != nil
+//@   ensures result1 ==> len(result0) == len(args)
+//@   ensures result1 ==> (forall j in [0, len(result0)) :: result0[j] != nil)
+//@   loop 1 invariant forall j in [0, rangeindex + 1) :: ret[j] != nil
+
+// "cache" date format: the atomic.Value is created holding a string and this closure, the only
+// code that can reach it, only ever stores strings.
+//@ func smartDateParseWrapper$2
+//@   requires av_string(atomicFormat)
+
+//@ func EvalStageIndexOrDefault
+//@   requires idx >= 0
+//@ func EvalArgInt
+//@   requires idx >= 0
+
+//@ func arrayOperator
+//@   requires len(delim) >= 1
+//@   requires mapper != nil
+//@   loop 1 invariant len(splitter.Delim) >= 1 && splitter.next <= len(splitter.S) && mapper != nil
+
+// ---- array helpers: the splitter stays inside its string (C08), see C17 for list semantics ----
+//@ pred sp_ok(sp) := len(sp.Delim) >= 1 && sp.next <= len(sp.S)
+
+//@ func kfArraySelect$1
+//@   loop 1 invariant sp_ok(splitter)
+//@ func kfArraySlice$1
+//@   loop 1 invariant sp_ok(splitter)
+//@ func kfArrayReduce$1
+//@   loop 1 invariant sp_ok(splitter) && mapperContext != nil
+//@ func kfArrayFilter$1
+//@   loop 1 invariant sp_ok(splitter) && sub != nil
+//@ func kfArrayFor$1
+//@   loop 1 invariant sub != nil
+
+// field selection: the current word starts at or before the scan position
+//@ func selectField
+//@   loop 1 invariant 0 <= wordStart && wordStart <= rangepos() && rangepos() <= len(s)
+
+// the time attribute table is written by package initialisation only; every entry is a function
+// (checked over the composite literal on every run: table obligation "time attribute table")
+//@ globalinv forall k: str :: in_dom(attrType, k) ==> map_get(attrType, k) != nil
+
+// bar width: validated when the stage is built
+//@ func kfBar$1
+//@   requires 0 <= *maxLen && *maxLen <= 1000000
